@@ -189,7 +189,8 @@ impl Monitor for C02 {
                                         Some(db) if db > d0 => (&db - &d0) / &r + big(1),
                                         _ => unit_j.clone() * 2u32,
                                     };
-                                    if excess <= val.max(unit_j * 8u32) + big(8) {
+                                    let fp = super::c03::fixed_point_slack(mx, &d0) / &r;
+                                    if excess <= val.max(unit_j * 8u32) + big(8) + fp {
                                         v.finding = Some("S6-stableswap-output-rounding".into());
                                         v.truncate = false;
                                     }
